@@ -190,22 +190,31 @@ Typing(p, ref, items) ==
                t == Typing(p, r1, Tail(items))
            IN [t EXCEPT !.out = OutItems(o) \o @]
 
+\* a replay of macro n may start in kanata although the monitor does not follow it (soft zone): no calm
+\* before its time budget has passed
+PlayStart(m, n) ==
+  IF ~MacHas(m.mac, n) THEN m
+  ELSE LET x == Expand(m.p, m.mac, n, {n})
+           b == IF x.ok THEN ConstPace * (x.n + 1) + 10 ELSE ConstPace * (6 * m.p.max + 20) + 10
+       IN [m EXCEPT !.replaying = TRUE, !.repLate = @ \/ x.late, !.budget = OMin(@ + b, 4000)]
+
 \* an input event arrives: what output it announces
 PlayArrive(m, isPress, c) ==
   LET p == m.p
       ctl == CtlOf(p, c)
-  IN IF m.mode = "lost" THEN m
+      isPlay == isPress /\ ctl # <<>> /\ ctl[1].k = "play"
+  IN IF m.mode = "lost" THEN (IF isPlay THEN PlayStart(m, ctl[1].n) ELSE m)
      ELSE IF ThOf(p, c) # <<>> THEN Lose(m)
      ELSE IF m.replaying
-     THEN IF ~isPress /\ ctl # <<>> THEN m ELSE Lose(m)
+     THEN IF ~isPress /\ ctl # <<>> THEN m ELSE Lose(IF isPlay THEN PlayStart(m, ctl[1].n) ELSE m)
      ELSE LET one == Typing(p, m.ref, <<<<"e", [p |-> isPress, c |-> c, g |-> 0]>>>>)
               m1 == [m EXCEPT !.ref = one.ref, !.exp = @ \o one.out]
-          IN IF ~(isPress /\ ctl # <<>> /\ ctl[1].k = "play") THEN m1
-             ELSE IF m1.rec # <<>> /\ m1.rec[1].id = ctl[1].n THEN Lose(m1)       \* statement silent
+          IN IF ~isPlay THEN m1
+             ELSE IF m1.rec # <<>> /\ m1.rec[1].id = ctl[1].n THEN Lose(PlayStart(m1, ctl[1].n))       \* statement silent
              ELSE IF ~MacHas(m1.mac, ctl[1].n) THEN m1
              ELSE LET x == Expand(p, m1.mac, ctl[1].n, {ctl[1].n})
                       t == Typing(p, m1.ref, x.items)
-                  IN IF ~x.ok \/ ~t.ok THEN Lose(m1)
+                  IN IF ~x.ok \/ ~t.ok THEN Lose(PlayStart(m1, ctl[1].n))
                      ELSE [m1 EXCEPT !.ref = t.ref, !.exp = @ \o t.out, !.replaying = TRUE, !.repLate = x.late,
                                      !.budget = ConstPace * (x.n + 1) + 10]
 
@@ -264,7 +273,9 @@ MonTick(m, out, idle, cb) ==
         repDone == ~m.replaying \/ idle \/ (recOn /\ m.budget = 0)
         calm == idle \/ (recOn /\ pend = 0 /\ und = 0 /\ stall = 0 /\ ctlp = 0 /\ repDone)
         m1 == [RecTick([m EXCEPT !.rec = rec0]) EXCEPT !.down = o.down, !.pend = pend, !.und = und, !.stall = stall,
-                                 !.ctlp = ctlp, !.lateSeen = lateSeen, !.budget = budget, !.lastIdle = calm]
+                                 !.ctlp = ctlp, !.lateSeen = lateSeen, !.lastIdle = calm,
+                                 !.replaying = ~repDone, !.budget = IF ~repDone THEN budget ELSE 0,
+                                 !.repLate = @ /\ ~repDone]
         tag == IF (m.replaying /\ m.repLate) \/ m.lateSeen THEN "C19 [late control key]: " ELSE "C19: "
         quiet == m.phys = {} /\ calm /\ pend = 0
     IN IF m.mode = "lost"
@@ -285,9 +296,7 @@ MonTick(m, out, idle, cb) ==
             THEN Fail(m1, tag \o "replay does not end")
             \* a replay that involved a late macro has ended: resynchronise at the next quiescent point
             ELSE IF m.replaying /\ repDone /\ m.repLate THEN Lose([m1 EXCEPT !.replaying = FALSE, !.repLate = FALSE, !.budget = 0])
-            ELSE [m1 EXCEPT !.exp = x.exp,
-                            !.replaying = ~repDone,
-                            !.budget = IF ~repDone THEN budget ELSE 0]
+            ELSE [m1 EXCEPT !.exp = x.exp]
 
 \* n silent ticks
 RECURSIVE MonSilent(_, _, _, _)
